@@ -5,8 +5,9 @@ What runs
 ---------
 1. TLC checks the implementation-shaped translation tables  spec/WinXlat.tla  (WindowsApiEmitter.queue_events)  and
    spec/FSEventsXlat.tla  (FSEventsEmitter.queue_events / queue_event / _is_recursive_event)  over an abstract file
-   system (names {a,b}, depth 2, an outside area), all histories of <= 2 (quick) / <= 3 (thorough) operations rendered
-   into native batches (all batch cuts, all FSEvents coalescings per item+path), and  spec/Codec.tla  (framing of the
+   system (names {a,b}, depth 2, an outside area), all histories of <= 2 (quick) / <= 4 (thorough) operations rendered
+   into native batches (all batch cuts, all FSEvents coalescings of adjacent same-item events, every placement of the
+   reads / callbacks between the operations that the pacing allows), and  spec/Codec.tla  (framing of the
    two binary buffers: Encode ; Decode = identity, termination, no read past the buffer).  The main configs restrict
    the environment to the part on which the code meets the contract; the *_neg_* configs switch the restrictions off
    one at a time and TLC must then FIND the defect the code traces show (model and code agree about the finding).
@@ -39,12 +40,13 @@ ReadDirectoryChangesW: names relative to the watched root; create = ADDED; write
   Windows); move out = REMOVED; move in = ADDED of the top entry only; optional MODIFIED of the parent directory of a
   changed entry ("verbose" variant); non-recursive (bWatchSubtree = FALSE): only entries directly in the root are
   reported; removal of the watched root = the pending REMOVED records, then a failing read = FILE_ACTION_REMOVED_SELF.
-  A read returns any non-empty prefix of the pending records (arbitrary batch cuts).  A cut BETWEEN RENAMED_OLD_NAME
-  and RENAMED_NEW_NAME is only produced in the scenario class `splitpair` (the API documentation does not promise
-  that both records share a buffer; .NET's FileSystemWatcher handles the split explicitly).
+  A read returns any non-empty prefix of the pending records (arbitrary batch cuts).  Scenarios with a cut BETWEEN
+  RENAMED_OLD_NAME and RENAMED_NEW_NAME carry the flag `splitpair` (the API documentation does not promise that both
+  records share a buffer; .NET's FileSystemWatcher handles the split explicitly) - likewise FSEvents rename pairs.
 FSEvents (kFSEventStreamCreateFlagFileEvents | WatchRoot | UseExtendedData): absolute real paths, one event per item
-  with the item's inode: ItemCreated / ItemRemoved / ItemModified (+ ItemInodeMetaMod in the verbose variant) /
-  ItemRenamed, each with ItemIsFile or ItemIsDir; a rename inside the tree = two ItemRenamed events (old path, new
+  with the item's inode: ItemCreated / ItemRemoved / ItemModified / ItemRenamed, each with ItemIsFile or ItemIsDir
+  (verbose variant: + ItemInodeMetaMod on writes, and ItemCreated repeated on later events of an item that an earlier
+  batch announced as created - the "spurious is_created" the emitter's _fs_view exists for); a rename inside the tree = two ItemRenamed events (old path, new
   path) adjacent in the stream; move out / move in = ONE ItemRenamed event; only the top entry of a moved tree is
   reported; recursive delete = ItemRemoved per entry, children first; root removal = ItemRemoved of the root followed
   by an event with kFSEventStreamEventFlagRootChanged (no inode).  FSEvents is always recursive (the emitter filters).
@@ -57,6 +59,32 @@ Delivery: `paced` = the native events of each operation are delivered (in every 
   operations that respects the directory pacing condition of C01 (DESIGN section 7) is issued back to back and its
   native events are delivered afterwards (every cut / coalescing); only P_C20_ReplicaMatches (+ the non-recursive
   clause) is evaluated there.
+
+Genuine defects found on the unchanged tree (reported as VIOLATIONs until they are registered in known_findings.json)
+-------------------------------------------------------------------------------------------------------------------
+Each has a signature  <clause>:<id>:<name>  (FINDINGS below), a feature PREDICTOR written from the scenario alone
+(`predict`), a *_neg_<id>.cfg in which TLC finds the same violation in the model, and - where small - a patch under
+/verif/proposed_fixes/.  A failing clause is attributed to a finding only if the scenario has that finding's feature
+and the clause is one the finding explains; every other failing clause gets the signature <clause>:<layer>:unexplained,
+which is what a regression produces (reported first).
+  W1  Windows: RENAMED_OLD_NAME / RENAMED_NEW_NAME split across two reads -> Moved('' -> new)      (patch)
+  W2  Windows: ADDED / NEW record translated after its path changed again (isdir at translation time; back to back)
+  W3  Windows decoder: names decoded with 'utf-16' (BOM-sensitive) instead of 'utf-16-le'           (patch)
+  F1  FSEvents non-recursive: created / deleted / moved-away events of child DIRECTORIES dropped     (patch)
+  F2  FSEvents non-recursive: moved events across the root / sub-directory boundary name a deep path (literal reading of
+      "never reports anything below the root's direct children"; any path of any queued event counts)
+  F3  FSEvents: rename pair split across callback batches -> deleted + created, not one moved event
+  F4  FSEvents: an item renamed / moved twice before translation -> ItemRenamed events mis-paired by inode
+
+Readings of the property text chosen here
+-----------------------------------------
+* "renames inside a recursively watched tree become one moved event": demanded for renames the OS reports as a rename
+  (ReadDirectoryChangesW: inside one directory; FSEvents: all); a Windows move between two directories of the tree is
+  REMOVED + ADDED natively and is judged by the replica only.
+* the File/Dir flavour of deleted events is not demanded (ReadDirectoryChangesW cannot tell; the emitter always says
+  File); the flavour of created / moved events is (through the replica comparison).
+* replay = Apply of DESIGN section 7 literally (a moved event carries the replica's subtree with ITS kinds).
+* events whose paths lie outside the watched tree (e.g. DirModifiedEvent(dirname(root)) after root removal) are ignored.
 
 Limits of the approach (stated)
 -------------------------------
@@ -74,7 +102,12 @@ Limits of the approach (stated)
   overlapped I/O of the real libraries are outside (C04-C07 cover the generic emitter life cycle).
 * No replace-by-rename, links or permission faults in the histories; histories are bounded as stated in the evidence.
 * "Never reads past the buffer" is checked on the Codec model; on the code only the decoded records are compared (a
-  Python-level over-read of a bytes object cannot be observed without guard pages).
+  Python-level over-read of a bytes object cannot be observed without guard pages) - except that a decoder which runs
+  far off the buffer takes the worker process down, which is detected and reported (P_C20_NoException).
+* Windows names are well-formed UTF-16 (BMP characters and surrogate PAIRS); a lone surrogate - legal on NTFS - makes
+  filename.decode("utf-16") raise UnicodeDecodeError; observed, not part of the enumerated universe.
+* Scratch trees live under $TMPDIR if set, else /dev/shm (tmpfs; metadata operations on this machine's ext4 /tmp are ~5x
+  slower), else /tmp - one directory per run, removed at exit also when workers died.
 """
 
 from __future__ import annotations
@@ -1404,9 +1437,12 @@ def run(c: checklib.Check):
 
     def tlc_job(item):
         name, (mod, cfg) = item
-        return name, cfg, tlc.run_tlc(mod, cfg, workers=w, coverage=not name.startswith("neg:"), timeout=1500, heap="8g")
+        big = c.thorough and name == "FSEventsXlat"
+        return name, cfg, tlc.run_tlc(mod, cfg, workers=max(w, c.jobs // 2) if big else w,
+                                      coverage=not name.startswith("neg:"), timeout=1500, heap="8g")
 
-    items = [(n, (v[0], v[tier])) for n, v in DESIGN_RUNS.items()] + \
+    order = ["FSEventsXlat", "WinXlat", "Codec"]                      # the largest model first
+    items = [(n, (DESIGN_RUNS[n][0], DESIGN_RUNS[n][tier])) for n in order] + \
             [("neg:" + f, (v[0], v[1])) for f, v in NEG_RUNS.items()]
     pool_t = ThreadPoolExecutor(max_workers=4)
     design_future = pool_t.map(tlc_job, items)
@@ -1484,7 +1520,8 @@ def run(c: checklib.Check):
     # signature is re-executed here to get its native batches and queued events for the replay file
     S = Scratch()
     try:
-        for sig in sorted(by_sig, key=lambda x: (0 if "unexplained" in x else 1, x)):
+        rank = {f: i for i, f in enumerate(("W1", "W2", "F1", "F4", "F3", "F2", "W3"))}
+        for sig in sorted(by_sig, key=lambda x: (0 if "unexplained" in x else 1, rank.get(x.split(":")[1], 9), x)):
             v = by_sig[sig]
             if "decoder" in v["sc"]:
                 bad = [ln for ln in uniq[v["key"]] if ln["enc"] != ln["dec"]][:3]
@@ -1499,7 +1536,14 @@ def run(c: checklib.Check):
                 what = f"{v['n']} scenario(s); {why}; smallest: {describe(v['sc'], detail)}"
                 replay = {"c20_scenario": v["sc"], "flags": v["flags"], "native_and_queued": detail, "trace": lines,
                           "trace_spec": ["XlatTrace", "XlatTrace.cfg"], "clause": v["clause"]}
-            c.violation(v["clause"], what, replay, signature=sig)
+            if c.violation(v["clause"], what, replay, signature=sig):
+                # checklib prints and stores only the first five signatures: store every one
+                os.makedirs(checklib.REPLAY_DIR, exist_ok=True)
+                name = "C20_" + "_".join(sig.split(":")[:2][::-1]) + ".json"
+                with open(os.path.join(checklib.REPLAY_DIR, name), "w") as f:
+                    json.dump({"property": "C20", "clause": v["clause"], "signature": sig, "what": what, "replay": replay},
+                              f, indent=1, default=str)
+                c.note(f"FINDING {sig} x{v['n']} replay=replays/{name}: {what[:500]}")
     finally:
         S.destroy()
 
